@@ -27,6 +27,7 @@ RULES = {
     "C03.GUARD": "each child poll is guarded by the family's not-finished state test on the same child",
     "C03.MARK": "child's final result => finishing mark on the same child before the iteration ends",
     "C03.STOP": "no child poll reachable after the deciding child's result in the same call",
+    "C03.LATCH": "a body that guards against being polled after its final result (assert on done/consumed/completed) evaluates that guard before any child poll",
     "C03.SRC": "FromStream::drive: no iter.next() after the source returned None; flush is reached",
     "C03.PRED": "PollState predicates/setters mean what their names say",
 }
@@ -57,6 +58,7 @@ def run(ctx):
         for u in families.all_member_units(M):
             rule_mark(ctx, u)
             rule_stop(ctx, u)
+            rule_latch(ctx, u)
         rule_maybe_done(ctx, M)
         if cfg != "core":
             rule_src(ctx, M)
@@ -249,6 +251,67 @@ def rule_stop(ctx, u):
         hit = sorted(all_cps & r)
         ctx.check(not hit, "C03.STOP", u.where, "no child is polled after %s delivered %s" % (c.label, "/".join(lab)), site=c.where,
                   path=common.fmt_blocks(bi, hit))
+
+
+def panic_blocks(bi):
+    """blocks that diverge: calls without a return target (panic_fmt, unreachable, assert failures)"""
+    body = bi.body
+    out = set()
+    for b in body.reachable:
+        if body.is_cleanup(b):
+            continue
+        t = body.term(b)
+        if t["k"] == "call" and t.get("t") is None:
+            out.add(b)
+        elif t["k"] in ("unreachable", "abort"):
+            out.add(b)
+    return out
+
+
+def completion_guards(bi):
+    """bool switches on a completion flag of self (done / consumed, or counter == const) one of
+    whose edges leads only to a panic: returns [(switch entry, live edge, panic edge)]."""
+    body = bi.body
+    pan = panic_blocks(bi)
+    out = []
+    for e in bi.switches:
+        if e["kind"] != "bool":
+            continue
+        s = e["subject"]
+        is_flag = s[0] == "field" and s[1] == ("param", 1)
+        if not is_flag and s[0] == "binop" and s[1] in ("Eq", "Ne"):
+            is_flag = any(x[0] == "field" and x[1] == ("param", 1) for x in (s[2], s[3]))
+        if not is_flag and s[0] == "phi":
+            for d in body.defs.get(s[1], []):
+                t = bi.T._of_def(s[1], d, 1)
+                for x in (t,) + tuple(t[1:] if isinstance(t, tuple) else ()):
+                    if isinstance(x, tuple) and x and x[0] in ("binop", "unop"):
+                        from ..terms import subterms as _st
+                        if any(y[0] == "field" and y[1] == ("param", 1) for y in _st(x)):
+                            is_flag = True
+        if not is_flag:
+            continue
+        for lab in (True, False):
+            pe = bi.edge(e, lab)
+            le = bi.edge(e, not lab)
+            if not pe or not le:
+                continue
+            r = body.reach([pe[1]])
+            if r and not any(body.term(x)["k"] == "return" for x in r) and (r & pan):
+                out.append((e, le, pe))
+    return out
+
+
+def rule_latch(ctx, u):
+    bi = u.bi
+    guards = completion_guards(bi)
+    if not guards:
+        ctx.ok("C03.LATCH", u.where, "%s: body has no polled-after-completion guard (caller contract; nothing to order)" % u.label, nontrivial=False)
+        return
+    live = [le for e, le, pe in guards]
+    bad = [c for c in u.cps if not bi.guarded_by(c.block, live)]
+    ctx.check(not bad, "C03.LATCH", u.where, "%s: the polled-after-completion guard is evaluated before any child is polled" % u.label,
+              site=(bad[0].where if bad else u.body.span), path=[c.where for c in bad[:4]])
 
 
 def rule_maybe_done(ctx, M):
